@@ -11,7 +11,7 @@ comparison and max (anything else stops the run with exit 2).
 import itertools
 
 from ..core import AnalysisError
-from ..absint import (Interp, DT, TD, TZ, Obj, ClassVal, AbsRaise, Unsupported, Native,
+from ..absint import (Interp, DT, TD, TZ, Obj, ClassVal, AbsRaise, Unsupported, Native, term_str,
                       Closure, Bound)
 
 ALLOWED_OPS = {"isinstance", "order-compare", "date.tzinfo", "date.replace",
@@ -90,6 +90,7 @@ def run(ctx):
         "comparison and max (checked: any other operation stops the run)",
     ]
     it = Interp(m)
+    it_pytz = Interp(m, provider="pytz")
     at_cls = m.cls("alarms.AlarmTime")
     al_cls = m.cls("alarms.Alarms")
     ncases = 0
@@ -112,6 +113,13 @@ def run(ctx):
                         if got[field] != exp[field]:
                             cls = classify(tkind, local_tz, field, got[field], r)
                             fails.setdefault(cls, []).append((case, field, got[field], exp[field]))
+                    if local_tz:
+                        # the same under the pytz provider (the local zone is the caller's object)
+                        got2 = evaluate(it_pytz, m, at_cls, al_cls, tkind, r, local_tz)
+                        for field in ("ack", "trigger", "active"):
+                            if got2[field] != exp[field]:
+                                cls = "[pytz provider] " + classify(tkind, local_tz, field, got2[field], r)
+                                fails.setdefault(cls, []).append((case, field, got2[field], exp[field]))
     bad_ops = it.ops_seen - ALLOWED_OPS
     if bad_ops:
         raise AnalysisError(f"the alarm functions use operations outside the abstract "
@@ -129,6 +137,7 @@ def run(ctx):
                f"{n} weak order(s) x local-tz settings evaluated against the decision table")
     ctx.extra["deviating_cases"] = len(bad_cases)
     _sublist(ctx, m, al_cls)
+    _history(ctx, m, al_cls)
     _wiring(ctx, m, al_cls)
 
 
@@ -141,7 +150,7 @@ def classify(tkind, local_tz, field, got, r):
     return f"{tkind} trigger, {tz}: {field} -> {g}"
 
 
-def evaluate(it, m, at_cls, al_cls, tkind, r, local_tz):
+def evaluate(it, m, at_cls, al_cls, tkind, r, local_tz, read_first=False):
     alarm = mk_alarm(it, m, r.get("A1"))
     T = DT(tkind, r["T"], None, "Europe/Berlin" if tkind == "zoned" else None)
     A2 = DT("utc", r["A2"]) if "A2" in r else None
@@ -150,7 +159,8 @@ def evaluate(it, m, at_cls, al_cls, tkind, r, local_tz):
     alarms = it.call(ClassVal(al_cls), [], {})
     alarms.attrs["_last_ack"] = A2
     alarms.attrs["_snooze_until"] = S
-    alarms.attrs["_local_tzinfo"] = TZ("zone", "Local/Zone") if local_tz else None
+    # a time zone object supplied by the caller (datetime.timezone / ZoneInfo / ...)
+    alarms.attrs["_local_tzinfo"] = TZ("zone", "Local/Zone", "plain") if local_tz else None
     out = {}
     try:
         at = it.call(it.getattr(alarms, "_alarm_time"), [alarm, T], {})
@@ -216,6 +226,78 @@ def _sublist(ctx, m, al_cls):
               f"is_active() is true (same order, nothing added); for is_active = "
               f"{list(bad[0]) if bad else ''} it {bad[1] if bad else ''}", p.loc(),
               detail=f"{n} lists of stub alarm times (length 0..4, every activity pattern)")
+
+
+def _history(ctx, m, al_cls):
+    """Reading .times / .active must not freeze anything: whatever is set
+    afterwards (snooze, acknowledgement, local time zone, start, end, another
+    alarm) is reflected exactly as on an object that was never read before."""
+    vddd = ClassVal(m.cls("prop.vDDDTypes"))
+
+    def fresh(it):
+        ev = it.call(ClassVal(m.cls("cal.Event")), [], {})
+        ev.items["DTSTART"] = it.call(vddd, [DT("utc", 10, None)], {})
+        ev.items["DTEND"] = it.call(vddd, [DT("utc", 20, None)], {})
+        al = it.call(ClassVal(m.cls("cal.Alarm")), [], {})
+        al.items["TRIGGER"] = it.call(vddd, [TD(term={"T": 1}, mag="subday")], {})
+        ev.attrs["subcomponents"].append(al)
+        return it.call(ClassVal(al_cls), [ev], {})
+
+    def extra_alarm(it):
+        al = it.call(ClassVal(m.cls("cal.Alarm")), [], {})
+        al.items["TRIGGER"] = it.call(vddd, [DT("utc", 30, None)], {})
+        return al
+    mutators = [("acknowledge_until", lambda it: [DT("utc", 40, None)]),
+                ("snooze_until", lambda it: [DT("utc", 50, None)]),
+                ("acknowledge_until then snooze_until", None),
+                ("set_local_timezone", lambda it: [TZ("zone", "Local/Zone", "plain")]),
+                ("set_start", lambda it: [DT("utc", 11, None)]),
+                ("set_end", lambda it: [DT("utc", 21, None)]),
+                ("add_alarm", lambda it: [extra_alarm(it)])]
+
+    def observe(it, alarms):
+        out = []
+        for attr in ("times", "active"):
+            try:
+                v = it.getattr(alarms, attr)
+                row = []
+                for at in v:
+                    try:
+                        t = it.getattr(at, "trigger")
+                        row.append((t.rank, term_str(t.term)) if isinstance(t, DT) else repr(t))
+                    except AbsRaise as e:
+                        row.append("!" + e.cls_name)
+                out.append(row)
+            except AbsRaise as e:
+                out.append("!" + e.cls_name)
+        return out
+
+    def apply(it, alarms, name, mk):
+        if mk is None:
+            it.call(it.getattr(alarms, "acknowledge_until"), [DT("utc", 40, None)], {})
+            it.call(it.getattr(alarms, "snooze_until"), [DT("utc", 50, None)], {})
+        else:
+            it.call(it.getattr(alarms, name), mk(it), {})
+    for name, mk in mutators:
+        try:
+            it1 = Interp(m)
+            a1 = fresh(it1)
+            observe(it1, a1)                 # read first
+            apply(it1, a1, name, mk)
+            got = observe(it1, a1)
+            it2 = Interp(m)
+            a2 = fresh(it2)
+            apply(it2, a2, name, mk)
+            want = observe(it2, a2)
+        except AbsRaise as e:
+            ctx.fail("C15/HISTORY", f"{name} after reading", f"{name} raises {e.cls_name}", al_cls.loc())
+            continue
+        except Unsupported as e:
+            raise AnalysisError(f"Alarms history check leaves the abstract interface ({name}): {e}")
+        ctx.check(got == want, "C15/HISTORY", f"{name} after reading times/active",
+                  f"after .times/.active were read, {name} gives times/active {got}; an object that was "
+                  f"never read gives {want} (a stale cached result)", al_cls.loc(),
+                  detail="same as on a fresh object")
 
 
 def _wiring(ctx, m, al_cls):
